@@ -94,5 +94,11 @@ Example C20_example :
   well_locked_state filter results (init (Some (MkMsg [0;0;0] 5 0 1)) [[OAdd [1]; OMatches [1]]; [OAdd [2]]]) /\
   exported_path_ok bloom_methods [Lock; CallWorker "add"%string; Unlock; Return] = true /\
   exported_path_ok bloom_methods [CallWorker "add"%string; Return] = false /\
-  exported_path_ok bloom_methods [Lock; CallWorker "add"%string; Unlock; ReadField "msgFilterLoad"%string; Return] = false.
+  exported_path_ok bloom_methods [Lock; CallWorker "add"%string; Unlock; ReadField "msgFilterLoad"%string; Return] = false /\
+  (* shared (RWMutex) sections: never accepted as exclusive; and even a reader/writer discipline only admits them
+     around read-only workers: matches reads, matchTxAndUpdate writes through maybeAddOutpoint -> addOutPoint -> add *)
+  exported_path_ok bloom_methods [RLock; CallWorker "matches"%string; RUnlock; Return] = false /\
+  rw_path_ok bloom_methods [RLock; CallWorker "matches"%string; RUnlock; Return] = true /\
+  rw_path_ok bloom_methods [RLock; CallWorker "matchTxAndUpdate"%string; RUnlock; Return] = false /\
+  rw_path_ok bloom_methods [RLock; WriteField "msgFilterLoad"%string; RUnlock; Return] = false.
 Proof. split; [apply conc_well_locked|vm_compute; repeat split]. Qed.
